@@ -57,6 +57,19 @@ class Evaluator:
         if v is not None:
             return v
         k = o[0]
+        if k in ("field", "downcast") and isinstance(o[1], tuple) and o[1]:
+            # a value built as a variant / tuple and taken apart again
+            if k == "downcast" and o[1][0] == "agg" and o[1][1][0] == "adt" and o[1][1][2] == o[2]:
+                return self.ev(o[1])
+            if k == "field" and o[1][0] == "agg" and o[1][1][0] in ("adt", "tuple") and isinstance(o[2], int) and o[2] < len(o[1][2]):
+                return self.ev(o[1][2][o[2]])
+            if k == "field" and o[1][0] == "downcast" and isinstance(o[1][1], tuple) and o[1][1] and o[1][1][0] == "agg" and o[1][1][1][0] == "adt":
+                if o[1][1][1][2] == o[1][2] and isinstance(o[2], int) and o[2] < len(o[1][1][2]):
+                    return self.ev(o[1][1][2][o[2]])
+                raise Panic("payload of another variant")
+        if k == "agg" and o[1] and o[1][0] == "adt":
+            # an enum value of known variant: usable as the operand of a discriminant read
+            return ("enum", o[1][2])
         if k == "const":
             if o[1] is None:
                 raise Unknown("constant %s" % (o[2],))
